@@ -83,6 +83,10 @@ func (s *Store[H]) deleteSingle(
 		}
 	}
 
+	// not while the pending batch is being written out: the flush would bring the header back
+	s.flushMu.Lock()
+	defer s.flushMu.Unlock()
+
 	if err := s.ds.Delete(ctx, hashKey(hash)); err != nil {
 		return nil, fmt.Errorf("delete hash key (%X): %w", hash, err)
 	}
